@@ -388,6 +388,10 @@ def specFinal (s : SpecSt) : Option String :=
     if s.plain then plainClause s
     else orElse (healthyClause s) fun _ => orElse (stuckClause s) fun _ => completeClause s
 
+def Obs.isAbort : Obs → Bool
+  | .abort _ _ => true
+  | _ => false
+
 def specCheck (obs : List Obs) : Except String Unit :=
   match specRun {} obs with
   | .error m => .error m
@@ -1257,6 +1261,110 @@ theorem aTask_facts {W : World ω} (C : Cfg) (E : Engine σ) {plain : Bool} (hE 
         · exact ⟨Or.inl rfl, Or.inl ⟨rfl, fun h => h⟩⟩
   · rw [if_pos (by simp [hreg])]
     exact ⟨Or.inl rfl, Or.inl ⟨rfl, fun h => h⟩⟩
+
+theorem drv_none (sp : SpecSt) (who : Who) : sp.ep? (drv who) = none := by cases who <;> rfl
+
+theorem rx_ok (sp : SpecSt) (who : Who) (e : EpSt) (n : Nat) (h : sp.ep? who = some e) (hl : e.lastDoneInit = true)
+    (hp : sp.plain = false) (hn : n ≠ 0) : specStep sp (.rx who n) = .ok sp := by
+  simp only [specStep]
+  rw [onEp_some h]
+  simp [rxClause, hn, hl, hp, setEp_self h]
+
+theorem disc_ok (sp : SpecSt) (who : Who) (e : EpSt) (h : sp.ep? who = some e) (h0 : e.discSeen = 0) :
+    specStep sp (.disc who) = .ok (sp.setEp who { e with discSeen := 1 }) := by
+  simp only [specStep]
+  rw [onEp_some h]
+  simp [discClause, h0]
+
+theorem ok_step (V : Env σ ω) {plain : Bool} (hE : EngOk V.E plain) (who : Who) (ep : Ep σ ω) (rev : REvents) (first : Bool)
+    (sp : SpecSt) (e : EpSt) (tail : List Obs) (hsp : sp.ep? who = some e) (hpl : sp.plain = plain)
+    (hidle : e.callT = none) (hdisc : e.discSeen = ep.a.disconnects) (hreg : ep.a.registered = true → ep.a.disconnects = 0)
+    (hna : ∀ o ∈ (epStep V who ep rev first).2, o.isAbort = false) :
+    ∃ e', specRun sp ((epStep V who ep rev first).2 ++ tail) = specRun (sp.setEp who e') tail ∧
+      e'.async = e.async ∧ e'.callT = none ∧ e'.discSeen = (epStep V who ep rev first).1.a.disconnects ∧
+      ((epStep V who ep rev first).1.a.registered = true → (epStep V who ep rev first).1.a.disconnects = 0) := by
+  simp only [epStep] at hna ⊢
+  have hq := aQuery_fields V.E ({ a := ep.a, s := fresh ep.st } : ASt σ (ω × List OsRec))
+  generalize aQuery V.E { a := ep.a, s := fresh ep.st } = q at hq hna ⊢
+  obtain ⟨q1, q2, q3, _, _⟩ := hq
+  simp only at q1 q2 q3
+  have hf := aTask_facts (W := obsWorld V.W) V.C V.E hE ep.rsz q (if first = true then forcedRev V.E q rev else rev)
+  dsimp only at hf
+  generalize aTask V.C (obsWorld V.W) V.E ep.rsz q (if first = true then forcedRev V.E q rev else rev) = r at hf hna ⊢
+  obtain ⟨hD, hX⟩ := hf
+  rw [q1] at hD
+  rw [q2, q3] at hX
+  -- the driver's own lines and the events of the task
+  let e2 : EpSt := { e with lastDoneInit := lastDI e.lastDoneInit r.2.s.g.engCalls.reverse }
+  have hhead : ∀ (RX DISC : List Obs), specRun sp (.api (drv who) .other none ::
+        (evObs who r.2.s ++ RX ++ DISC ++ [stepRet who r.1]) ++ tail) =
+      specRun (sp.setEp who e2) (RX ++ (DISC ++ ([stepRet who r.1] ++ tail))) := by
+    intro RX DISC
+    have h1 : specStep sp (.api (drv who) .other none) = .ok sp := by simp [specStep, onEp, drv_none]
+    rw [List.cons_append, specRun_cons_ok h1]
+    rw [show (evObs who r.2.s ++ RX ++ DISC ++ [stepRet who r.1]) ++ tail = r.2.s.w.2.reverse.map (osObs who) ++
+      (r.2.s.g.engCalls.reverse.map (callObs who) ++ (RX ++ (DISC ++ ([stepRet who r.1] ++ tail)))) by
+        simp only [evObs, List.append_assoc]]
+    rw [run_os_idle who _ sp _ (by intro ep' h'; rw [hsp] at h'; cases h'; exact hidle)]
+    rw [run_calls who _ sp e _ hsp]
+  have he2 : (sp.setEp who e2).ep? who = some e2 := ep?_setEp hsp
+  have hretok : ∀ (sp' : SpecSt), specRun sp' ([stepRet who r.1] ++ tail) = specRun sp' tail := by
+    intro sp'
+    have hnr : (stepRet who r.1).isAbort = false := hna _ (by simp)
+    have : specStep sp' (stepRet who r.1) = .ok sp' := by
+      rcases r with ⟨o, x'⟩
+      cases o with
+      | ok u => simp [stepRet, specStep, onEp, drv_none]
+      | exn ex => simp [stepRet, specStep, onEp, drv_none]
+      | abort m => simp [stepRet, Obs.isAbort] at hnr
+    exact specRun_cons_ok this tail
+  rcases hD with hD | ⟨bs, k, rest, hbs, hD, hpf, hcalls⟩
+  · -- nothing delivered
+    have hnew : (r.2.a.delivered.take (r.2.a.delivered.length - ep.a.delivered.length)).reverse = [] := by
+      rw [hD]; simp
+    rw [hnew]
+    rcases hX with ⟨hX, hX2⟩ | ⟨hr, hX, hX2, _⟩
+    · have hnd : r.2.a.disconnects - ep.a.disconnects = 0 := by omega
+      rw [hnd]
+      refine ⟨e2, ?_, rfl, hidle, ?_, ?_⟩
+      · have := hhead [] []
+        simp only [List.map_nil, List.append_nil, List.replicate_zero, List.nil_append] at this ⊢
+        rw [this, hretok]
+      · show e.discSeen = r.2.a.disconnects; omega
+      · intro h; have := hreg (hX2 h); show r.2.a.disconnects = 0; omega
+    · have hnd : r.2.a.disconnects - ep.a.disconnects = 1 := by omega
+      rw [hnd]
+      have h0 : e2.discSeen = 0 := by show e.discSeen = 0; have := hreg hr; omega
+      refine ⟨{ e2 with discSeen := 1 }, ?_, rfl, hidle, ?_, ?_⟩
+      · have := hhead [] [.disc who]
+        simp only [List.map_nil, List.append_nil, List.nil_append, List.replicate_one] at this ⊢
+        rw [this]
+        rw [show [Obs.disc who] ++ ([stepRet who r.1] ++ tail) = Obs.disc who :: ([stepRet who r.1] ++ tail) from rfl]
+        rw [specRun_cons_ok (disc_ok _ who e2 he2 h0), hretok, setEp_setEp]
+      · show 1 = r.2.a.disconnects; have := hreg hr; omega
+      · intro h; rw [hX2] at h; cases h
+  · -- one buffer delivered
+    have hnew : (r.2.a.delivered.take (r.2.a.delivered.length - ep.a.delivered.length)).reverse = [bs] := by
+      rw [hD]; simp
+    rw [hnew]
+    have hl : e2.lastDoneInit = true := by
+      show lastDI e.lastDoneInit r.2.s.g.engCalls.reverse = true
+      rw [hcalls, List.reverse_cons, lastDI_snoc]; rfl
+    have hlen : bs.length ≠ 0 := by
+      intro h; exact hbs (List.eq_nil_of_length_eq_zero h)
+    rcases hX with ⟨hX, hX2⟩ | ⟨_, _, _, hsame⟩
+    · have hnd : r.2.a.disconnects - ep.a.disconnects = 0 := by omega
+      rw [hnd]
+      refine ⟨e2, ?_, rfl, hidle, ?_, ?_⟩
+      · have := hhead [.rx who bs.length] []
+        simp only [List.map_cons, List.map_nil, List.append_nil, List.replicate_zero, List.nil_append] at this ⊢
+        rw [this]
+        rw [show [Obs.rx who bs.length] ++ ([stepRet who r.1] ++ tail) = Obs.rx who bs.length :: ([stepRet who r.1] ++ tail) from rfl]
+        rw [specRun_cons_ok (rx_ok _ who e2 _ he2 hl (by rw [plain_setEp, hpl, hpf]) hlen), hretok]
+      · show e.discSeen = r.2.a.disconnects; omega
+      · intro h; have := hreg (hX2 h); show r.2.a.disconnects = 0; omega
+    · rw [hD, q1] at hsame
+      exact absurd hsame (List.cons_ne_self _ _)
 
 end Proof
 
